@@ -64,6 +64,12 @@ pub fn script_name(ops: &[Op]) -> String {
             OpKind::Flush => s.push_str(&format!("{}F@{}_", if o.side == 0 { 'a' } else { 'b' }, o.round)),
         }
     }
+    // long scripts: the first eight operations, the number of operations and a hash of the full text
+    if ops.len() > 24 {
+        let mut h = 0xcbf29ce484222325u64; for b in s.bytes() { h ^= b as u64; h = h.wrapping_mul(0x100000001b3); }
+        let head: String = s.split_inclusive('_').take(8).collect();
+        return format!("{}..{}ops.{:08x}", head, ops.len(), h as u32);
+    }
     s
 }
 
